@@ -438,13 +438,19 @@ def forwarded_parameter_obligations(model, rep, fn, pname, callees, clause, rule
         rep.instance(rule, fn.loc(c))
         pos = callees[c.func.attr]
         v = kwarg(c, pname)
-        if v is None and pos is not None and pos < len(c.args) and not isinstance(c.args[pos], ast.Starred):
+        if v is None and isinstance(pos, (set, frozenset, list, tuple)):
+            # several callees of that name, the parameter at different positions: the slot whose argument derives from the parameter, else the first one given
+            cands = [c.args[q] for q in sorted(pos) if q < len(c.args) and not any(isinstance(a_, ast.Starred) for a_ in c.args[:q + 1])]
+            named = [a_ for a_ in cands if pname in {x.id for x in ast.walk(a_) if isinstance(x, ast.Name)}]
+            v = (named or cands or [None])[0]
+        elif v is None and pos is not None and pos < len(c.args) and not isinstance(c.args[pos], ast.Starred):
             v = c.args[pos]
         ok = v is not None
         det = ""
         if not ok:
-            if any(k.arg is None for k in c.keywords):
-                continue  # **kwargs forwarding: not decided here
+            own_kw = fn.node.args.kwarg.arg if fn.node.args.kwarg is not None else None
+            if any(k.arg is None and not (isinstance(k.value, ast.Name) and k.value.id == own_kw) for k in c.keywords):
+                continue  # forwarding through some other dictionary: not decided here (the function's own **kwargs cannot contain a named parameter)
             det = f"`{norm_src(c)[:90]}` does not pass `{pname}`: the callee falls back to the loader's default although {fn.name} was asked for a specific one"
         else:
             try:
